@@ -355,6 +355,12 @@ func checkRegexOperators(c *core.Ctx, t *fnTable, ids map[string]int64) {
 			c.Unknown("RE", key, 0, "descriptor not found")
 			continue
 		}
+		// the function's parameter (the argument values), whatever it is called
+		vals := "values"
+		if pl := d.Function.Type.Params; pl != nil && len(pl.List) > 0 && len(pl.List[0].Names) > 0 {
+			vals = pl.List[0].Names[0].Name
+		}
+		rename := func(s string) string { return strings.ReplaceAll(s, vals+"[", "values[") }
 		for _, cached := range []bool{false, true} {
 			cached := cached
 			in := newLitInterp(c.Prog, t.info, "functions")
@@ -363,19 +369,19 @@ func checkRegexOperators(c *core.Ctx, t *fnTable, ids map[string]int64) {
 			in.Hooks.Call = chainCall(func(st *absint.State, call *ast.CallExpr, callee string, recv absint.Val, args []absint.Val) (absint.Val, bool) {
 				switch {
 				case strings.Contains(callee, "ristretto") && strings.HasSuffix(callee, ".Get"):
-					getKey = args[0].Canon()
+					getKey = rename(args[0].Canon())
 					if cached {
 						return absint.Tuple{Elems: []absint.Val{absint.NN("CACHED"), absint.Bool(true)}}, true
 					}
 					return absint.Tuple{Elems: []absint.Val{absint.Nil{}, absint.Bool(false)}}, true
 				case strings.Contains(callee, "ristretto") && strings.HasSuffix(callee, ".Set"):
-					setKey = args[0].Canon()
+					setKey = rename(args[0].Canon())
 					return absint.Bool(true), true
 				case callee == "regexp.Compile":
-					compiled = args[0].Canon()
+					compiled = rename(args[0].Canon())
 					return absint.Tuple{Elems: []absint.Val{absint.NN("COMPILED"), absint.Nil{}}}, true
 				case callee == "regexp.(*Regexp).MatchString":
-					subject = args[0].Canon()
+					subject = rename(args[0].Canon())
 					return absint.S("matched"), true
 				}
 				return nil, false
